@@ -319,3 +319,9 @@ def run(repo: Repo, chk: Check) -> None:
     # ---- 4 nesting kept by the sequence-building productions ----------------------------------------------------------------------
     chk.set_clause('C18.4')
     _nesting_clause(repo, chk, par)
+
+    # ---- memory across calls (shared rule, sa/statelint.py) ----------------------------------------------------------------------------------
+    chk.set_clause('C18.M')
+    from ..statelint import check_memory
+    check_memory(repo, chk, ['pytezos.michelson.parse.', 'pytezos.michelson.format.'],
+                 'the expression returned by the parser is shared with earlier callers: editing one result edits the next parse of the same text')
